@@ -29,6 +29,7 @@ func prefixUsesNestedDef(t string) bool {
 	}
 	return false
 }
+
 var reTwoPairs = regexp.MustCompile(`-- \S+ \S+ \S+ \S+`)
 
 type clsLine struct {
